@@ -122,23 +122,47 @@ def unterminated_description(text):
     return False
 
 
+_WRAPPER_AT_EOF = re.compile(r"@(?:Behaviour|Model)<[A-Za-z0-9_]+,$")
+
+
+def wrapper_at_end_of_file(text):
+    """`@Behaviour<interface,` / `@Model<interface,` as the last tokens (as c54::wrapperAtEndOfFile)"""
+    out = []
+    i, n = 0, len(text)
+    while i < n:
+        c = text[i]
+        if c == '/' and i + 1 < n and text[i + 1] in "/*":
+            i = ml._skip_opaque(text, i)
+            continue
+        if not c.isspace():
+            out.append(c)
+        i += 1
+    return bool(_WRAPPER_AT_EOF.search("".join(out)))
+
+
 def known_class(text):
     """key of the recorded finding the input belongs to (None otherwise)"""
     if unterminated_description(text):
         return "C54.read_past_end.handleDescription_unterminated"
+    if wrapper_at_end_of_file(text):
+        return "C54.read_past_end.handleBehaviour_wrapper_at_end_of_file"
     t = strip_comments(text).rstrip()
     if _TRAILING_KEYWORD.search(t):
         return "C54.heap-buffer-overflow.treatKeyword_at_end_of_file"
     z = "".join(t.split())
     if z == ";" or z.endswith(";;"):  # `;` is a keyword too (handleLonelySeparator)
-        return "C54.heap-buffer-overflow.treatKeyword_at_end_of_file"
+        return "C54.heap-buffer-overflow.handleLonelySeparator_at_end_of_file"
     return None
 
 
 def canonical_key(key):
     """sanitizer derived key -> key of the recorded finding with the same root cause"""
-    if key.split(".")[0] in ("heap-buffer-overflow", "SEGV") and key.endswith(("::treatKeyword", "::handleLonelySeparator")):
+    if key.split(".")[0] in ("heap-buffer-overflow", "SEGV") and key.endswith("::treatKeyword"):
         return "heap-buffer-overflow.treatKeyword_at_end_of_file"
+    if key.split(".")[0] in ("heap-buffer-overflow", "SEGV") and key.endswith("::handleLonelySeparator"):
+        return "heap-buffer-overflow.handleLonelySeparator_at_end_of_file"
+    if key.endswith("SingleStructureSchemeParser::handleBehaviour") and key.split(".")[0] in ("SEGV", "heap-buffer-overflow"):
+        return "read_past_end.handleBehaviour_wrapper_at_end_of_file"
     if key.endswith("SchemeParserBase::handleDescription") and key.split(".")[0] in ("SEGV", "heap-buffer-overflow"):
         return "read_past_end.handleDescription_unterminated"
     return key
@@ -418,6 +442,8 @@ def check_mutant(case):
             donor = case.get("donor_text", "")
         except (OSError, KeyError):
             raise Reject()
+        if "cut" in case:
+            text = ml.cut_at_token(text, case["cut"])
         text = ml.apply_ops(text, case["ops"], State.keywords, donor, MAX_LEN * 2)
     elif "text" in case:
         text = case["text"]
@@ -456,7 +482,10 @@ def mutant_strategy(groups):
     mutated = st.fixed_dictionaries({"seed": st.just("inline"), "seed_text": seed, "donor_text": st.sampled_from(allt),
                                      "ops": ml.ops_strategy(), "mode": st.integers(0, 10 ** 6)})
     noise = st.fixed_dictionaries({"ops": ml.ops_strategy(), "mode": st.integers(0, 10 ** 6)})
-    return st.one_of(*([mutated] * 9 + [noise]))
+    # an unmodified corpus file cut after its k-th token (k uniform over the whole file)
+    prefix = st.fixed_dictionaries({"seed": st.just("inline"), "seed_text": seed, "cut": st.integers(0, 4000), "ops": st.just([]),
+                                    "mode": st.integers(0, 10 ** 6)})
+    return st.one_of(*([mutated] * 6 + [prefix] * 3 + [noise]))
 
 
 # ------------------------------------------------------------------ engine A
